@@ -302,6 +302,7 @@ func (r *runner) caller(si int) {
 	sd := sr.d
 	base := context.WithValue(context.Background(), ctxKey{}, sr.token)
 	ctx, cancel := context.WithCancel(base)
+	var quietErr func() error // the harness's own look at a user-defined context (no scheduling point)
 	if sd.CtxKind == 2 && sd.CancelMode != CancelDeadline {
 		cctx, ccancel := context.WithCancelCause(base)
 		ctx, cancel = cctx, func() { ccancel(errCause) }
@@ -319,6 +320,8 @@ func (r *runner) caller(si int) {
 	}
 	if sd.CtxKind == 1 && sd.CancelMode != CancelDeadline {
 		uc := engine.NewUserCtx(ctx)
+		uc.YieldIn(sim)
+		quietErr = uc.ErrQuiet
 		stdCancel := cancel
 		ctx, cancel = context.WithValue(uc, ctxKey{}, sr.token), func() { uc.Cancel(); stdCancel() }
 	}
@@ -442,7 +445,12 @@ func (r *runner) caller(si int) {
 	}
 	r.log(EvWaitCall, si, -1)
 	err := sched.Wait(wctx)
-	ctxErr := wctx.Err()
+	var ctxErr error
+	if quietErr != nil && sd.WaitCtx == 0 {
+		ctxErr = quietErr()
+	} else {
+		ctxErr = wctx.Err()
+	}
 	sim.Yield(engine.HsRet)
 	if sim.Aborted() {
 		return
